@@ -12,10 +12,15 @@ TRUSTED = ['modelled, not verified: int64_t arithmetic is written with unbounded
            'the C locale; bash standing in for ksh when running duration_total / regress_duration_total, with the rebuilt robsd-step '
            'behind step_eval (C01 models that helper); shell arithmetic is 64 bit like the C code; the guards of duration_total / regress_duration_total are read from '
            'util.sh / util-regress.sh by harness/t_shell.py (Gen_Shell.v) and the hand-written shell model is proved equal to the one assembled from them (C18_shell_translated)',
-           'environment assumed: as for C05 (lock file names the directory given on the command line); the Size: oracle is not applied when '
-           'the tags file lacks a final newline (the first Size: line is then glued to the Tags: line and the harness cannot cut it out; the '
-           'byte-exact correspondence still covers those cases); durations outside 0..2^40 or deltas beyond +-2^40 (in-flight -1 rows) are '
-           'only compared with the model, not judged by the oracle, as the property says']
+           'environment assumed: as for C05 (lock file names the directory given on the command line); the verdict on the report is '
+           'spec_ok_bytes_numbers on exit status and standard output (C18_bytes_oracle_accepts_model) - the Duration: and Size: lines are judged where '
+           'they stand, the harness\'s parser only names the clause of a failed verdict; durations outside 0..2^40 or deltas beyond +-2^40 '
+           '(in-flight -1 rows) are only compared with the model, not judged by the oracle, as the property says',
+           '"the previous invocation" is judged by CREATION ORDER: the harness records the order in which it made the entries of robsddir '
+           '(case field created) and hands it to the oracle (fixture field x_age); known finding previous-is-name-order-not-age is recognised only when '
+           'the printed Size: lines are exactly the ones against the greatest other name and name order differs from creation order in that case',
+           'outside the property by the same predicate on the case as for C05 (rp_common.outside_reason): a file that is a directory, a missing lock '
+           'file, a passing dpb row without packages.diff, a regress row without log name']
 
 MIB, KIB = 2 ** 20, 2 ** 10
 
@@ -48,8 +53,44 @@ def gen_duration_case(rng):
     return c
 
 
+def gen_age_case(rng):
+    """robsd builds whose invocation names stress "previous": the tenth and later builds of a day (unpadded numbers), a name that is a
+    prefix of another, this invocation not the newest, a name issued again after cleaning; release files differ in every invocation"""
+    c = rp_common.gen_case(rng, focus='sizes')
+    day = '2024-01-0%d' % rng.choice([2, 5])
+    kind = rng.choice(['tenth', 'eleventh', 'first-and-tenth', 'below-ten', 'reissued', 'two-days'])
+    if kind == 'tenth':
+        names, me = [day + '.8', day + '.9'], day + '.10'
+    elif kind == 'eleventh':
+        names, me = [day + '.9', day + '.10'], day + '.11'
+    elif kind == 'first-and-tenth':
+        names, me = [day + '.10'], day + '.1'
+    elif kind == 'below-ten':
+        k = rng.choice([2, 5, 9])
+        names, me = [day + '.%d' % i for i in range(max(1, k - 2), k)], day + '.%d' % k
+    elif kind == 'reissued':
+        # .1 and .2 were cleaned away, .3 stayed; the next build of the day was issued .1 again
+        names, me = [day + '.3'], day + '.1'
+    else:
+        names, me = ['2024-01-01.9', '2024-01-01.10'], day + '.1'
+    created = sorted(names, key=rp_common.natural_key) + [me]
+    if kind == 'first-and-tenth':
+        created = [me] + names
+    c['builddir'] = me
+    c['others'] = [[n, 'dir'] for n in names] + ([['attic', 'dir']] if rng.random() < 0.5 else [])
+    c['created'] = [o[0] for o in c['others'] if o[0] == 'attic'] + created
+    cur = c['rel'] if c['rel'] else [['bsd', 6 * MIB], ['bsd.rd', 9 * KIB]]
+    c['rel'] = cur
+    c['prevrel'] = {n: [[nm, max(0, size + rng.choice([-3, -2, 2, 3, 5]) * (KIB if nm == 'bsd.rd' else MIB) * (i + 1))] for nm, size in cur]
+                    for i, n in enumerate(names)}
+    c['age_kind'] = kind
+    return c
+
+
 def stats(res, c, rc, rep):
     rows = c['rows']
+    if c.get('age_kind'):
+        res.count('invocation names=%s' % c['age_kind'])
     res.count('end_row=%s' % ('yes' if any(r['name'] == 'end' for r in rows) else 'no'))
     for r in rows:
         d = r['duration']
@@ -102,7 +143,9 @@ def gen_cases(rng, n):
     cases = []
     for i in range(n):
         k = i % 3
-        if k == 0:
+        if i % 12 == 9:
+            cases.append(gen_age_case(rng))
+        elif k == 0:
             cases.append(rp_common.gen_case(rng, focus='sizes'))
         elif k == 1:
             cases.append(gen_duration_case(rng))
@@ -116,7 +159,8 @@ def run(ctx, n=None):
     res.rule = ('a third of the cases robsd builds with release directories in this and in previous invocations (sparse files; sizes at 2^10+-1, '
                 '2^20+-1, deltas at the thresholds +-1 for bsd.rd and other files, decimal ties 2^18*odd and 2^8*odd, up to 5.5 GiB, files present on '
                 'one side only, CHANGELOG, numbered diffs and look-alikes, hidden files), a third rows with durations/deltas at 59/60/61 s, the '
-                'two-digit and int boundaries and 2^40, with and without an end row, a third the general C05 generator; the shell totals are run for '
+                'two-digit and int boundaries and 2^40, with and without an end row, a third the general C05 generator; one case in twelve has invocation names of the '
+                'tenth/eleventh build of a day, a name that is a prefix of another, or a reissued name, with the creation order recorded; the shell totals are run for '
                 'a sample of the cases; non-trivial = a report with a Size: line or a delta suffix; distinct by content hash')
     n = n or ctx.budget(330, 9000)
     cases = rp_common.load_corpus('C18') + gen_cases(ctx.rng, n)
